@@ -89,6 +89,90 @@ func runC09(w *World, r *Report) {
 		r.Fail("C09.capture-write", construct, cw.store.Pos(), fmt.Sprintf("variable %q declared in %s is written by literal %s, which escapes (%s): all invocations, including concurrent runs, share it", cw.varName, w.fname(cw.declIn), w.fname(cw.escaping), cw.why))
 	}
 
+	// stream chunks are shared by every copy of a stream (fan-out, callback handlers, replays) and by concurrent
+	// consumers: the functions that fold chunks never write through them
+	r.Rule("C09.chunks-not-mutated", "ConcatMessages / concatToolCalls / concatMessageArray do not write through their input chunks (also not through a shallow copy of a chunk's sub-struct)", 3)
+	for _, n := range []string{"ConcatMessages", "concatToolCalls", "concatMessageArray"} {
+		f := w.Fn("schema", n)
+		n0 := len(r.Obs)
+		ruleNoMutateParams(w, r, "C09.chunks-not-mutated", f, nil)
+		if len(r.Obs) == n0 {
+			r.OK("C09.chunks-not-mutated", w.fname(f)+" leaves its inputs untouched", f.Pos(), "no store / map update rooted in a parameter")
+		}
+	}
+	// per-run placeholder streams are made per call
+	r.Rule("C09.empty-stream-fresh", "the producers stored in genericHelper.inputEmptyStream / outputEmptyStream create their stream inside the call (no stream object captured from construction time)", 2)
+	{
+		gh := w.Named("compose", "genericHelper")
+		n := 0
+		for _, fn := range w.RepoFuncs("compose") {
+			for _, fw := range fieldWrites(fn) {
+				if fw.owner != gh || !(fw.field.Name() == "inputEmptyStream" || fw.field.Name() == "outputEmptyStream") {
+					continue
+				}
+				n++
+				construct := fmt.Sprintf("%s sets genericHelper.%s", w.fname(origin(fn)), fw.field.Name())
+				if f, _ := loadedField(fw.val); f != nil && (f.Name() == "inputEmptyStream" || f.Name() == "outputEmptyStream") {
+					r.OK("C09.empty-stream-fresh", construct, fw.in.Pos(), "copied from another helper's producer")
+					continue
+				}
+				switch v := fw.val.(type) {
+				case *ssa.Function:
+					r.OK("C09.empty-stream-fresh", construct, fw.in.Pos(), "a plain function (captures nothing): "+v.Name())
+				case *ssa.MakeClosure:
+					lit := v.Fn.(*ssa.Function)
+					shared := ""
+					instrs(lit, func(in ssa.Instruction) {
+						ret, ok := in.(*ssa.Return)
+						if !ok || len(ret.Results) == 0 {
+							return
+						}
+						for _, fv := range lit.FreeVars {
+							if derivesFrom(returnedValue(ret, 0), fv) {
+								shared = fv.Name()
+							}
+						}
+					})
+					r.Check(shared == "", "C09.empty-stream-fresh", construct, fw.in.Pos(), "closure whose result does not derive from a captured object", "the producer returns a stream derived from the captured object "+shared+" created once at construction time: every run (and every concurrent caller) of the compiled node gets the same single-consumer stream — from the second run on it is empty, concurrent callers race on its cursor")
+				case *ssa.Call:
+					// a factory: inspect the literal it returns
+					var lit *ssa.Function
+					if sc := staticCallee(v); sc != nil {
+						instrs(origin(sc), func(in ssa.Instruction) {
+							if ret, ok := in.(*ssa.Return); ok && len(ret.Results) == 1 {
+								if mc, ok := ret.Results[0].(*ssa.MakeClosure); ok {
+									lit = mc.Fn.(*ssa.Function)
+								}
+							}
+						})
+					}
+					if lit == nil {
+						r.Check(false, "C09.empty-stream-fresh", construct, fw.in.Pos(), "", "the producer is the result of a call evaluated at construction time ("+valText(fw.val)+") that cannot be inspected")
+						break
+					}
+					shared := ""
+					instrs(lit, func(in ssa.Instruction) {
+						ret, ok := in.(*ssa.Return)
+						if !ok || len(ret.Results) == 0 {
+							return
+						}
+						for _, fv := range lit.FreeVars {
+							if isRefType(deref(fv.Type())) && derivesFrom(returnedValue(ret, 0), fv) {
+								shared = fv.Name()
+							}
+						}
+					})
+					r.Check(shared == "", "C09.empty-stream-fresh", construct, fw.in.Pos(), "factory-made closure whose result does not derive from a captured object", "the producer returns a stream derived from the object "+shared+" which its factory created once at construction time: every run (and every concurrent caller) of the compiled node gets the same single-consumer stream — from the second run on it is empty, concurrent callers race on its cursor")
+				default:
+					r.Check(false, "C09.empty-stream-fresh", construct, fw.in.Pos(), "", "the producer is neither a function nor a literal ("+valText(fw.val)+")")
+				}
+			}
+		}
+		if n < 2 {
+			undecidedf("C09.empty-stream-fresh: %d writes of the empty-stream producers (floor 2)", n)
+		}
+	}
+
 	r.Rule("C09.append-alias", "append on a slice held in a shared object is stored back to the same field or starts from a fresh slice", 1)
 	armedOwners := map[*types.Named]bool{}
 	for t := range compiled {
@@ -227,6 +311,19 @@ func paramRoot(v ssa.Value, depth int) *ssa.Parameter {
 	case *ssa.Field:
 		return paramRoot(x.X, depth+1)
 	case *ssa.UnOp:
+		// a reference (pointer / slice / map) loaded from a field of a LOCAL struct that was filled by copying a
+		// whole struct out of a parameter still points into the parameter's storage (a by-value copy is shallow)
+		if fa, ok := x.X.(*ssa.FieldAddr); ok && isRefType(x.Type()) {
+			for _, al := range pointeeAllocs(fa.X, 0) {
+				for _, ref := range *al.Referrers() {
+					if st, ok := ref.(*ssa.Store); ok && st.Addr == ssa.Value(al) {
+						if p := paramRoot(st.Val, depth+1); p != nil {
+							return p
+						}
+					}
+				}
+			}
+		}
 		return paramRoot(x.X, depth+1)
 	case *ssa.Lookup:
 		return paramRoot(x.X, depth+1)
@@ -338,4 +435,37 @@ func isRefType(t types.Type) bool {
 		return true
 	}
 	return false
+}
+
+// pointeeAllocs: the local allocations a pointer value may point to: the Alloc itself, or — for a pointer loaded
+// from a field of a local struct — the allocations stored into that field anywhere in the function.
+func pointeeAllocs(v ssa.Value, d int) []*ssa.Alloc {
+	if d > 3 {
+		return nil
+	}
+	switch x := v.(type) {
+	case *ssa.Alloc:
+		return []*ssa.Alloc{x}
+	case *ssa.UnOp:
+		fa, ok := x.X.(*ssa.FieldAddr)
+		if !ok {
+			return nil
+		}
+		var out []*ssa.Alloc
+		for _, base := range pointeeAllocs(fa.X, d+1) {
+			for _, ref := range *base.Referrers() {
+				f2, ok := ref.(*ssa.FieldAddr)
+				if !ok || f2.Field != fa.Field {
+					continue
+				}
+				for _, rr := range *f2.Referrers() {
+					if st, ok := rr.(*ssa.Store); ok && st.Addr == ssa.Value(f2) {
+						out = append(out, pointeeAllocs(st.Val, d+1)...)
+					}
+				}
+			}
+		}
+		return out
+	}
+	return nil
 }
